@@ -10,7 +10,7 @@ for sid, (change, needs, result) in rows.items():
     j = json.load(open(p))
     j['change'] = change
     j['needs'] = needs
-    j['checks'] = {'first pass (quick)': 'missed' if result.startswith(('missed', 'first exit 2')) else 'caught', 'now': result,
+    j['checks'] = {'first pass (quick)': 'missed' if result.startswith(('missed', 'first exit 2', 'extended')) else 'caught', 'now': result,
                    'ran': 'git -C /repo apply patch.diff; ./check %s; git -C /repo checkout -- .  (tools/seeded_run.py)' % sid[2:]}
     if results:
         j['checks']['last full run'] = results.get(sid)
